@@ -16,10 +16,10 @@ cargo test --offline --test seeded_demo -p $CRATE >$OUT/confirm_clean.log 2>&1; 
 echo "   exit $R_CLEAN"
 echo "== [2] apply patch; existing suite (must pass)"
 git apply $OUT/patch.diff || { echo "patch does not apply"; exit 2; }
-mv $TDIR/seeded_demo.rs /tmp/seeded-out/.demo.$ID
+mv $TDIR/seeded_demo.rs /tmp/seeded-out/.demo.$NAME
 cargo test --workspace --no-fail-fast --offline >$OUT/confirm_suite.log 2>&1; R_SUITE=$?
 echo "   exit $R_SUITE ($(grep -c '^test result: ok' $OUT/confirm_suite.log) ok result lines, $(grep -c 'FAILED' $OUT/confirm_suite.log) FAILED)"
-mv /tmp/seeded-out/.demo.$ID $TDIR/seeded_demo.rs
+mv /tmp/seeded-out/.demo.$NAME $TDIR/seeded_demo.rs
 echo "== [3] demo with the patch (must fail)"
 cargo test --offline --test seeded_demo -p $CRATE >$OUT/confirm_patched.log 2>&1; R_PATCHED=$?
 echo "   exit $R_PATCHED"
